@@ -108,6 +108,9 @@ def job(ctx, i):
            'probes': probes, 'faults': res['faults'],
            'extra': dict(res['counters'],
                          pristine_child_calls=res['pristine_calls']),
+           'sets': {'fault sites (kind, function) that fired': [
+               k for k in res['probes'] if k.startswith('fault_fired_in_')
+               or k.startswith('nested_call_inside_')]},
            'digests': [res['events_digest']],
            'nontrivial_digests': [res['events_digest']]
            if res['nontrivial'] else []}
